@@ -397,6 +397,123 @@ Proof.
   eapply sc_mono; [exact Hn | exact Hb].
 Qed.
 
+(* ------------------------------------- fuel independence in every mode *)
+(* Also in mode Legacy the answer - including None, there the panic of the
+   tuple rule - is the same for every fuel >= fuel_for: a None of set_conforms
+   Legacy is never an artefact of the fuel. *)
+Lemma all_o_ext : forall {A} (f g : A -> option bool) l,
+  (forall x, In x l -> f x = g x) -> all_o f l = all_o g l.
+Proof.
+  intros A f g. induction l as [|x l IH]; simpl; intros H. reflexivity.
+  rewrite (H x) by auto. rewrite IH. reflexivity. intros y Hy. apply H; auto.
+Qed.
+
+Lemma any_o_ext : forall {A} (f g : A -> option bool) l,
+  (forall x, In x l -> f x = g x) -> any_o f l = any_o g l.
+Proof.
+  intros A f g. induction l as [|x l IH]; simpl; intros H. reflexivity.
+  rewrite (H x) by auto. rewrite IH. reflexivity. intros y Hy. apply H; auto.
+Qed.
+
+Lemma tuple_all_ext : forall (f g : ty -> ty -> option bool) ls rs,
+  (forall a b, In a ls -> In b rs -> f a b = g a b) -> tuple_all f ls rs = tuple_all g ls rs.
+Proof.
+  intros f g. induction ls as [|a ls IH]; simpl; intros rs H. reflexivity.
+  destruct rs as [|b rs]. reflexivity.
+  rewrite (H a b) by (simpl; auto). rewrite (IH rs). reflexivity.
+  intros x y Hx Hy. apply H; simpl; auto.
+Qed.
+
+Lemma tc_body_ext : forall m f g l r,
+  (forall a b, ty_size a + ty_size b < ty_size l + ty_size r -> f a b = g a b) ->
+  tc_body m f l r = tc_body m g l r.
+Proof.
+  intros m f g l r H. unfold tc_body.
+  destruct (ty_eqb l r || is_const s_any r || is_const s_bot l); [reflexivity|].
+  destruct l; destruct r; try reflexivity.
+  - (* pair *) rewrite !ty_size_pair in H. f_equal; apply H; lia.
+  - (* tuple *) rewrite !ty_size_tuple in H.
+    assert (tuple_all f ts ts0 = tuple_all g ts ts0) as HT.
+    { apply tuple_all_ext. intros a b Ha Hb. apply H. apply In_lsum in Ha. apply In_lsum in Hb. lia. }
+    destruct m; [exact HT | |];
+      (destruct (Nat.eqb (length ts) (length ts0)); [exact HT | reflexivity]).
+  - (* list *) rewrite !ty_size_list in H. apply H. lia.
+  - (* map *) rewrite !ty_size_map in H. destruct (is_strict m).
+    + destruct (ty_eqb l1 r1); [apply H; lia | reflexivity].
+    + f_equal; apply H; lia.
+  - (* struct *) rewrite !ty_size_struct in H.
+    destruct (is_strict m && negb (same_fields (map fst (req ++ opt)) (map fst (req0 ++ opt0)))); [reflexivity|].
+    destruct (Nat.ltb (length req) (length req0)); [reflexivity|].
+    f_equal; apply all_o_ext; intros x Hx; apply In_fsum in Hx.
+    + destruct (lookup_last (fst x) req) eqn:E; [|reflexivity].
+      apply lookup_fsum in E. apply H. lia.
+    + destruct (lookup_last (fst x) req) eqn:E.
+      * apply lookup_fsum in E. apply H. lia.
+      * destruct (lookup_last (fst x) opt) eqn:E2; [|reflexivity].
+        apply lookup_fsum in E2. apply H. lia.
+Qed.
+
+Lemma tc_fuel_eq : forall m k l r n n', ty_size l + ty_size r <= k -> k <= n -> k <= n' ->
+  tc m n l r = tc m n' l r.
+Proof.
+  intros m. induction k as [|k IH]; intros l r n n' Hk Hn Hn'.
+  - pose proof (ty_size_pos l). lia.
+  - destruct n as [|n]; [lia|]. destruct n' as [|n']; [lia|].
+    rewrite !tc_S. apply tc_body_ext. intros a b Hab. apply (IH a b); lia.
+Qed.
+
+Lemma sc_body_ext : forall m fs gs ft gt l r,
+  (forall a b, mu a + mu b < mu l + mu r -> fs a b = gs a b) ->
+  ft l r = gt l r ->
+  sc_body m fs ft l r = sc_body m gs gt l r.
+Proof.
+  intros m fs gs ft gt l r Hs Ht. unfold sc_body.
+  destruct (ty_eqb l r || is_const s_any r || is_const s_bot l); [reflexivity|].
+  assert (forall tag vs, l = TTagged tag vs ->
+                         fs (expand_tagged true tag vs) r = gs (expand_tagged true tag vs) r) as HLT.
+  { intros tag vs ->. apply Hs. pose proof (mu_expand true tag vs). lia. }
+  assert (forall tag vs, r = TTagged tag vs ->
+                         fs l (expand_tagged (is_strict m) tag vs) = gs l (expand_tagged (is_strict m) tag vs)) as HRT.
+  { intros tag vs ->. apply Hs. pose proof (mu_expand (is_strict m) tag vs). lia. }
+  assert (forall ls, l = TUnion ls -> all_o (fun x => fs x r) ls = all_o (fun x => gs x r) ls) as HLU.
+  { intros ls ->. apply all_o_ext. intros x Hx. apply Hs. pose proof (mu_union_in _ _ Hx). lia. }
+  assert (forall rs, r = TUnion rs ->
+                     match any_o (fun y => fs l y) rs with
+                     | Some true => Some true | Some false => ft l (TUnion rs) | None => None end =
+                     match any_o (fun y => gs l y) rs with
+                     | Some true => Some true | Some false => gt l (TUnion rs) | None => None end) as HRU.
+  { intros rs E. rewrite <- E, Ht. subst r.
+    rewrite (any_o_ext (fun y => fs l y) (fun y => gs l y)). reflexivity.
+    intros y Hy. apply Hs. pose proof (mu_union_in _ _ Hy). lia. }
+  destruct l;
+    try (destruct r;
+         first [ exact Ht | apply HRT; reflexivity | apply HLU; reflexivity | apply HRU; reflexivity ]).
+  apply HLT; reflexivity.
+Qed.
+
+Lemma sc_fuel_eq : forall m k l r n n', mu l + mu r < k -> k <= n -> k <= n' ->
+  sc m n l r = sc m n' l r.
+Proof.
+  intros m. induction k as [|k IH]; intros l r n n' Hk Hn Hn'. lia.
+  destruct n as [|n]; [lia|]. destruct n' as [|n']; [lia|].
+  rewrite !sc_S. apply sc_body_ext.
+  - intros a b Hab. apply (IH a b); lia.
+  - pose proof (mu_ge l). pose proof (mu_ge r).
+    apply (tc_fuel_eq m (ty_size l + ty_size r)); lia.
+Qed.
+
+Lemma tc_fuel_independent_all : forall m n l r, fuel_for l r <= n -> tc m n l r = type_conforms m l r.
+Proof.
+  intros m n l r Hn. unfold type_conforms. pose proof (fuel_for_tc l r).
+  apply (tc_fuel_eq m (ty_size l + ty_size r)); lia.
+Qed.
+
+Lemma sc_fuel_independent_all : forall m n l r, fuel_for l r <= n -> sc m n l r = set_conforms m l r.
+Proof.
+  intros m n l r Hn. unfold set_conforms. pose proof (fuel_for_sc l r).
+  apply (sc_fuel_eq m (fuel_for l r)); lia.
+Qed.
+
 (* ------------------------------------------------------------------- bounds *)
 Lemma collect_o_def : forall {A} (f : A -> option (list ty)) xs,
   (forall x, In x xs -> f x <> None) -> collect_o f xs <> None.
